@@ -417,6 +417,9 @@ def check_jan00(P, R, tu):
     return base
 
 
+from core import NotConst as core_NotConst
+
+
 def check_bases(P, R, tu, dtu, base):
     rule = "RF2-base"
     d0 = (base - 1, 12, 31)      # daisy 0
@@ -456,11 +459,46 @@ def check_bases(P, R, tu, dtu, base):
                 got = const_of(a["c"][1])
                 mult = const_of(x["c"][1])
     if got is None:
-        raise AnalysisBroken("%s: (daisy - base) * seconds of __to_unix_epoch not recognised" % rule)
-    if got == want and mult == 86400:
+        # another spelling of the formula: the decode below decides it
+        R.notes.append("%s: (daisy - base) * seconds of __to_unix_epoch not recognised as one expression; decided by decoding" % rule)
+    elif got == want and mult == 86400:
         R.ob(rule, "__to_unix_epoch: (day - %d) * %d, day %d = 1970-01-01" % (got, mult, want), True)
     else:
         R.finding(rule, fn, "unix base", "__to_unix_epoch uses (day - %s) * %s; 1970-01-01 is day %d and a day has 86400 s" % (got, mult, want))
+    # the function itself, folded over the whole range (arithmetic of the width it is written in)
+    import datetime
+    import fold
+    libs = [dtu, tu, P.tu("libdut_a-time-core.o")]
+
+    def resolve(name):
+        for l in libs:
+            f = l.func(name)
+            if f is not None and getattr(f, "body", None) is not None:
+                return f
+        return None
+    fold.RESOLVE["fn"] = resolve
+    E = {k: dtu.enum_value(k) for k in ("DT_YMD", "DT_HMS")}
+    bad = []
+    npts = 0
+    try:
+        for (y, m, d) in ((1601, 1, 1), (1700, 3, 1), (1901, 12, 13), (1901, 12, 14), (1969, 12, 31), (1970, 1, 1), (2000, 2, 29), (2038, 1, 19),
+                          (2038, 1, 20), (2100, 1, 1), (2106, 2, 8), (3000, 7, 4), (4095, 12, 31)):
+            for (h, mi, se) in ((0, 0, 0), (12, 30, 15), (23, 59, 59)):
+                rec = {"typ": E["DT_YMD"], "sandwich": 1, "d.typ": E["DT_YMD"], "d.ymd.y": y, "d.ymd.m": m, "d.ymd.d": d,
+                       "t.typ": E["DT_HMS"], "t.hms.h": h, "t.hms.m": mi, "t.hms.s": se, "t.hms.ns": 0}
+                r = fold.Folder(fn, calls={}, inline=True, max_steps=400000).run([rec])
+                e = int((datetime.datetime(y, m, d, h, mi, se) - datetime.datetime(1970, 1, 1)).total_seconds())
+                npts += 1
+                if r != e:
+                    bad.append(("%04d-%02d-%02dT%02d:%02d:%02d" % (y, m, d, h, mi, se), r, e))
+    except (core_NotConst, fold.Abort) as e:
+        raise AnalysisBroken("%s: __to_unix_epoch left the foldable fragment (%s)" % (rule, e))
+    if bad:
+        R.finding(rule, fn, "unix seconds decoded", "%d of %d date-times across the range give other epoch seconds than 86400 x days since "
+                  "1970-01-01 + seconds of the day; first: %s gives %s, it is %s" % (len(bad), npts, bad[0][0], bad[0][1], bad[0][2]))
+    else:
+        R.ob(rule, "__to_unix_epoch decoded on %d date-times from 1601 to 4095 (both sides of the 32-bit range): 86400 x days since 1970-01-01 "
+             "+ seconds of the day" % npts, True)
 
 
 def _num(n):
